@@ -45,7 +45,49 @@ def both_routes(R, r, W):
             compare(R, a, b, route, W)
             if len(a.refs) == len(b.refs):
                 stack.extend(zip(a.refs, b.refs))
+        derived_and_reserialised(R, r, c, route, W)
     return libs
+
+
+def derived_and_reserialised(R, r, c, route, W):
+    """(1) the tree as the library itself writes it decodes, under the strict independent reader, to the same exotic tree (descriptor bytes carry type and level
+    mask); (2) cells obtained from slices / copies of exotic cells are exotic cells with the same per-level hashes and depths, and stay so while the slice they
+    came from is read to its end"""
+    B = bridge.lib()
+    st, data = mon.call(c.to_boc, bool(r.hash[0] & 1), bool(r.hash[0] & 2))
+    R.count('reserialised_trees')
+    if st == 'exc':
+        R.violation(f'to_boc-raises-{type(data).__name__}', f'serialising a spec-valid exotic tree ({route}) raised {data!r}', W)
+    else:
+        try:
+            back = rc.decode_boc(data, strict_distinct=False)['roots'][0]
+            R.check(back.hash == r.hash and rc.structural(back) == rc.structural(r), 'reserialised-tree-differs', f'the library\'s serialisation of the tree ({route}) decodes to another tree', W)
+        except rc.RefError as e:
+            R.violation(f'reserialised-tree-nonconforming-{str(e).split(" cell ")[0].split(":")[0].replace(" ", "-")[:40]}',
+                        f'the library\'s serialisation of a spec-valid exotic tree ({route}) is rejected by the strict reader: {e}', W)
+    todo, seen = [(r, c)], set()
+    n = 0
+    while todo and n < 12:
+        a, b = todo.pop()
+        if a.hash in seen:
+            continue
+        seen.add(a.hash)
+        todo.extend(zip(a.refs, b.refs))
+        if a.type == rc.ORD:
+            continue
+        n += 1
+        for how, mk in (('begin_parse.to_cell', lambda: (lambda s: (s.to_cell(), s))(b.begin_parse())), ('copy', lambda: (b.copy(), None)),
+                        ('Slice.from_cell.to_cell', lambda: (lambda s: (s.to_cell(), s))(B.Slice.from_cell(b))), ('slice.copy.to_cell', lambda: (lambda s: (s.copy().to_cell(), s))(b.begin_parse()))):
+            st, res = mon.call(mk)
+            if st == 'exc':
+                R.violation(f'derived-exotic-raises-{how}', f'{how} on an exotic cell (type {a.type}) raised {res!r}', W)
+                continue
+            d, sl = res
+            if sl is not None:
+                # keep using the slice the cell was taken from
+                mon.call(lambda: (sl.skip_bits(sl.remaining_bits), [sl.load_ref() for _ in range(sl.remaining_refs)]))
+            compare(R, a, d, f'derived:{how}', W)
+            R.count('derived_exotic_cells')
 
 
 def prunings(R, rng, tree, W, exhaustive_limit=8):
@@ -166,6 +208,8 @@ def run(R):
     R.floor('masks_builder', 8, 'set')
     R.floor('masks_boc', 8, 'set')
     R.floor('masks_boc-hashes', 8, 'set')
+    R.floor('derived_exotic_cells', 200)
+    R.floor('reserialised_trees', 200)
     R.floor('prunings_checked', 20)
     R.floor('inv_cells', 500)
 
